@@ -399,6 +399,8 @@ func runC16(c *Ctx) {
 		c.noLockAcrossHandlers("R4", funcs, c.ComputeLocksets(funcs), "client.hSet.RWMutex")
 	}
 	c.panicSafeLocksRule("R5")
+	r.Rule("R6", "built-in handlers do not move work out of the recovered frame: every go statement in code reachable from a handler of the internal or state table by plain calls starts the dispatch machinery, a function that defers the recovery hook first, or a function in which nothing can panic (all panic obligations proved, no calls into code the library does not own)")
+	c.handlerSpawnsRule("R6")
 	c.handlerFrameRule("R1")
 	// R2
 	n := 0
